@@ -6,6 +6,7 @@ Further inputs: permutations of up to 3 optional elements, each element duplicat
 identifier octet (incl. the half-octet alias values 0x00-0x0F) inserted between elements, the repository samples.
 Stage C: the real chain decode->encode->decode->encode is observed and TLC checks the three laws on the observed values
 and decides canonicity of the input by its own table-driven parse.
+Added after seeded round 7: every pair of different optional elements in definition order, contents salted per element.
 Added after seeded rounds 3-5: structured contents for every element (byte level); optional parts of exactly 65 536 octets; every projecting decode is followed by a second decode of the same input into another message that is scribbled over before the first is read."""
 import itertools, json, os, sys
 sys.path.insert(0, os.path.dirname(os.path.abspath(__file__)))
@@ -69,6 +70,8 @@ def run(c):
             if len(es) >= 2 and len(es[0]) != len(es[-1]):
                 add(base["inp"] + es[-1] + es[0]); add(base["inp"] + es[0] + es[-1])
                 if len(es) >= 3: add(base["inp"] + es[len(es) // 2] + es[0])
+        # every pair of different elements in definition order (canonical), each with contents of its own, and the full set
+        for v in canonical_pairs(m, base["inp"], singles, rng=rng, per_pair=3 if thorough else 1): add(v)
         # contents that look structured (code + inner big-endian length / count smaller than the content) for every element
         for iei, es in byiei.items():
             for v in structured_elements(m, max(es, key=len)): add(base["inp"] + v)
